@@ -117,10 +117,11 @@ fn raw_command_split_body(n: usize) {
                 k += 1;
             }
             assert!(args.next().is_none());
-            kani::cover!(n < 5 || m.n == 3, "name and two arguments");
-            kani::cover!(n < 4 || (m.n == 2 && m.len[1] == 0), "empty argument");
         }
     }
+    kani::cover!(n < 5 || m.n == 3, "name and two arguments");
+    kani::cover!(n < 4 || (m.n == 2 && m.len[1] == 0), "empty argument");
+    kani::cover!(n > 0 || m.n == 0, "no command");
 }
 
 macro_rules! tok_len {
